@@ -20,6 +20,7 @@ Qed.
 Ltac wrap_facts Sa Ea Sta Na e1 m :=
   pose proof (Sx_wrap _ (Nat.ltb (prec e1) m) (rootlab e1) _ _ _ Sa (rank_le e1) (render_balanced e1));
   pose proof (ender_wrap (Nat.ltb (prec e1) m) (rootlab e1) _ Ea);
+  pose proof (ender_ender2 _ (ender_wrap (Nat.ltb (prec e1) m) (rootlab e1) _ Ea));
   pose proof (starter_wrap (Nat.ltb (prec e1) m) (rootlab e1) _ Sta);
   pose proof (wrap_nonnil (Nat.ltb (prec e1) m) (rootlab e1) _ Na).
 
